@@ -3999,7 +3999,7 @@ class TLSConnection(TLSRecordLayer):
 
         # Check and save clients heartbeat extension mode
         heartbeat_ext = clientHello.getExtension(ExtensionType.heartbeat)
-        if heartbeat_ext:
+        if heartbeat_ext and settings.use_heartbeat_extension:
             if heartbeat_ext.mode == HeartbeatMode.PEER_ALLOWED_TO_SEND:
                 if settings.heartbeat_response_callback:
                     self.heartbeat_can_send = True
@@ -4206,7 +4206,7 @@ class TLSConnection(TLSRecordLayer):
 
                 heartbeat_ext = clientHello.getExtension(
                     ExtensionType.heartbeat)
-                if heartbeat_ext:
+                if heartbeat_ext and settings.use_heartbeat_extension:
                     if heartbeat_ext.mode == HeartbeatMode.PEER_ALLOWED_TO_SEND:
                         self.heartbeat_can_send = True
                     elif heartbeat_ext.mode == \
